@@ -2322,10 +2322,20 @@ namespace bloch::compiler {
     void SemanticAnalyser::visit(NullLiteralExpression&) {}
 
     void SemanticAnalyser::visit(VariableExpression& node) {
-        if (isDeclared(node.name) || isFunctionDeclared(node.name))
+        // A class name is a value nowhere: it is meaningful only before '.', where the member
+        // visitors handle it without coming here ('D x = D;' used to be accepted).
+        if (m_symbols.isTypeName(node.name))
+            throw BlochError(ErrorCategory::Semantic, node.line, node.column,
+                             "'" + node.name + "' is a type, not a value");
+        if (isDeclared(node.name))
             return;
         if (resolveField(node.name, node.line, node.column))
             return;
+        // A function or gate name is not a value: it is only meaningful as the callee of a call,
+        // which visit(CallExpression) resolves without coming here.
+        if (isFunctionDeclared(node.name))
+            throw BlochError(ErrorCategory::Semantic, node.line, node.column,
+                             "'" + node.name + "' is a function, not a variable");
         throw BlochError(ErrorCategory::Semantic, node.line, node.column,
                          "Variable '" + node.name + "' not declared");
     }
@@ -2450,7 +2460,8 @@ namespace bloch::compiler {
                 checkArgs(types, var->name, node.line, node.column);
             }
         } else if (auto member = dynamic_cast<MemberAccessExpression*>(node.callee.get())) {
-            if (member->object)
+            // a class name before '.' is a type reference, not a value: nothing to visit
+            if (member->object && !isTypeReference(member->object.get()))
                 member->object->accept(*this);
             auto objType = inferTypeInfo(member->object.get());
             if (objType.className.empty()) {
@@ -2564,7 +2575,7 @@ namespace bloch::compiler {
     }
 
     void SemanticAnalyser::visit(MemberAccessExpression& node) {
-        if (node.object)
+        if (node.object && !isTypeReference(node.object.get()))
             node.object->accept(*this);
         auto objType = inferTypeInfo(node.object.get());
         if (objType.className.empty()) {
@@ -2620,6 +2631,10 @@ namespace bloch::compiler {
                     ErrorCategory::Semantic, node.line, node.column,
                     "cannot call instance method '" + node.member + "' from static context");
             }
+            // a call resolves its callee in visit(CallExpression) and never comes here: this is a
+            // method name read as if it were a field ('int v = d.m;')
+            throw BlochError(ErrorCategory::Semantic, node.line, node.column,
+                             "'" + node.member + "' is a method, not a field");
         }
     }
 
@@ -2816,7 +2831,7 @@ namespace bloch::compiler {
     }
 
     void SemanticAnalyser::visit(MemberAssignmentExpression& node) {
-        if (node.object)
+        if (node.object && !isTypeReference(node.object.get()))
             node.object->accept(*this);
         auto objType = inferTypeInfo(node.object.get());
         if (objType.className.empty()) {
